@@ -102,7 +102,7 @@ impl Check for C17 {
         "C17"
     }
     fn rule(&self) -> String {
-        "strings of 0-40 building blocks: ASCII, CR/LF in every arrangement (\\r, \\n, \\r\\n, \\n\\r, \\r\\r\\n), base+combining marks, lone marks, ZWJ emoji sequences, skin-tone modifiers, regional-indicator pairs and odd runs, Hangul L/V/T jamo, prepend characters, variation selectors, control/boundary code points, arbitrary chars; 15% of the strings are ASCII lines of 60-300 bytes with CR / LF / CR LF written at generated offsets, half of them at the last byte of a 16/32/64-byte block (+-2); in 30% of the cases 1-3 earlier strings (up to 2600 repetitions of a unit, i.e. beyond 1024 chars) are converted through the same scratch buffer first, and the buffer may start with a capacity of 1000-5000; 8% are non-ASCII lines of 33-200 mostly 3- and 4-byte characters; plus generated valid slice ranges of all nine bound-kind combinations. Reference: is_ascii && !contains(CRLF) => Ascii(bytes) else first code point per extended grapheme cluster (unicode-segmentation) with CR LF -> LF; all constructors (Utf32Str::new, From<&str>, From<String>, From<Box<str>>, From<Cow> both arms), len/is_empty/is_ascii/get/chars (both directions)/slice/slice_u32/Display compared. Non-trivial: the string has a multi-code-point cluster or a CR LF pair. Distinct by case hash.".into()
+        "strings of 0-40 building blocks: ASCII, CR/LF in every arrangement (\\r, \\n, \\r\\n, \\n\\r, \\r\\r\\n), base+combining marks, lone marks, ZWJ emoji sequences, skin-tone modifiers, regional-indicator pairs and odd runs, Hangul L/V/T jamo, prepend characters, variation selectors, control/boundary code points, arbitrary chars; 15% of the strings are ASCII lines of 60-300 bytes with CR / LF / CR LF written at generated offsets, half of them at the last byte of a 16/32/64-byte block (+-2); in 30% of the cases 1-3 earlier strings (up to 2600 repetitions of a unit, i.e. beyond 1024 chars) are converted through the same scratch buffer first, and the buffer may start with a capacity of 1000-5000; 8% are non-ASCII lines of 33-200 mostly 3- and 4-byte characters; plus generated valid slice ranges of all nine bound-kind combinations. Reference: is_ascii && !contains(CRLF) => Ascii(bytes) else first code point per extended grapheme cluster (unicode-segmentation) with CR LF -> LF; all constructors (Utf32Str::new, From<&str>, From<String>, From<Box<str>>, From<Cow> both arms), len/is_empty/is_ascii/get/chars (forwards, reversed, and consumed from both ends in a generated order)/slice/slice_u32/Display (plain and with width / precision / fill specs: the content as it is, or padded as a whole) compared. Non-trivial: the string has a multi-code-point cluster or a CR LF pair. Distinct by case hash.".into()
     }
     fn assumptions(&self) -> Vec<String> {
         vec!["cluster boundaries are those of the unicode-segmentation crate (the same crate the library uses; trusted base for UAX #29)".into()]
@@ -249,6 +249,28 @@ impl Check for C17 {
                 if rev.iter().rev().copied().collect::<Vec<_>>() != exp {
                     fails.push(("chars-rev".into(), format!("{name}({s:?}) reverse iteration {rev:?}")));
                 }
+                // consumption from both ends of one iterator, in a generated order
+                {
+                    let mut it = u.chars();
+                    let mut model: std::collections::VecDeque<char> = exp.iter().copied().collect();
+                    let order = case.ranges.first().map_or(0x5a5a, |r| r.2 ^ r.3.rotate_left(5)) as u32 | 0x1_0000;
+                    let mut k = 0u32;
+                    loop {
+                        let back = (order >> (k % 17)) & 1 == 1;
+                        let (got, want) = if back { (it.next_back(), model.pop_back()) } else { (it.next(), model.pop_front()) };
+                        if got != want {
+                            fails.push(("chars-both-ends".into(), format!("{name}({s:?}).chars(): step {k} ({}) returned {got:?}, expected {want:?}", if back { "next_back" } else { "next" })));
+                            break;
+                        }
+                        if want.is_none() {
+                            if it.next().is_some() || it.next_back().is_some() {
+                                fails.push(("chars-both-ends".into(), format!("{name}({s:?}).chars() yields again after it was exhausted")));
+                            }
+                            break;
+                        }
+                        k += 1;
+                    }
+                }
                 for (i, &c) in exp.iter().enumerate() {
                     if u.get(i as u32) != c {
                         fails.push(("get".into(), format!("{name}({s:?}).get({i}) = {:?}, expected {c:?}", u.get(i as u32))));
@@ -260,6 +282,18 @@ impl Check for C17 {
                 let want: String = exp.iter().collect();
                 if disp != want || disp2 != want {
                     fails.push(("display".into(), format!("{name}({s:?}) displays {disp:?}/{disp2:?}, expected {want:?}")));
+                }
+                // format specs: the text is the content, as it is or padded / truncated as a whole like a str
+                for (got, like_str) in [
+                    (format!("{u:<7}"), format!("{want:<7}")),
+                    (format!("{f:>12.3}"), format!("{want:>12.3}")),
+                    (format!("{u:^9}"), format!("{want:^9}")),
+                    (format!("{f:-<5}"), format!("{want:-<5}")),
+                ] {
+                    if got != want && got != like_str {
+                        fails.push(("display-format-spec".into(), format!("{name}({s:?}) formatted with a width/precision gives {got:?}; the content is {want:?} (a str would give {like_str:?})")));
+                        break;
+                    }
                 }
                 let _ = format!("{f:?}{u:?}");
                 for &r in &case.ranges {
